@@ -4,6 +4,9 @@ CONSTANTS
   MaxTriesSet = {2}
   MaxList = 2
   Devs = {"DupRcpt"}
+  RwSets = {{}}
+  Utf8Set = {FALSE}
+  BounceStages = {"ok"}
   Gen = FALSE
 VIEW View
 INVARIANTS NoViolation
